@@ -137,6 +137,11 @@ C16Violated(S, B) ==
      \cup {[clause |-> "BuilderSet", pkg |-> x[1], builder |-> x[2], field |-> "extra"] : x \in got \ structs}
      \cup {[clause |-> "BuilderSet", pkg |-> B[i].pkg, builder |-> B[i].for.name, field |-> "duplicate"] :
              i \in {x \in DOMAIN B : \E y \in DOMAIN B : y # x /\ B[y].pkg = B[x].pkg /\ B[y].for.name = B[x].for.name}}
+     \* "exactly the objects that are structs get a builder": ONE builder per object, and an object is identified by its
+     \* own reference (package, name) - two builders built for the same object are one too many, whatever package they sit in
+     \cup {[clause |-> "BuilderSet", pkg |-> B[i].pkg, builder |-> B[i].for.name, field |-> "duplicate-object"] :
+             i \in {x \in DOMAIN B : \E y \in DOMAIN B : y # x /\ B[y].for.selfpkg = B[x].for.selfpkg /\ B[y].for.selfname = B[x].for.selfname
+                                                         /\ ~(B[y].pkg = B[x].pkg /\ B[y].for.name = B[x].for.name)}}
      \cup UNION {LET b == B[i] IN
                  IF <<b.pkg, b.for.name>> \in structs /\ HasObject(S, b.pkg, b.for.name)
                  THEN LET fs == Resolve(S, ObjectAt(S, b.pkg, b.for.name).type).fields
